@@ -720,3 +720,151 @@ func runNoFilterBeforeMerge(c *Ctx) {
 	}
 	c.Anchor("C39.R5", "MergePublications call sites", n >= 2)
 }
+
+func init() {
+	if round2Docs["C13"] == nil {
+		round2Docs["C13"] = map[string]string{}
+	}
+	round2Docs["C13"]["C13.R5"] = "conservation: a ring index and the element count move by the same amount in the same step"
+	round3Hooks["C13"] = append(round3Hooks["C13"], runRingDeltaAgrees)
+}
+
+// ringDelta: v == (load typ.idx + d) % len(typ.nodes)  →  d
+func ringDelta(v ssa.Value, typ, idx string) (ssa.Value, bool) {
+	rem, ok := v.(*ssa.BinOp)
+	if !ok || rem.Op != token.REM {
+		return nil, false
+	}
+	add, ok := rem.X.(*ssa.BinOp)
+	if !ok || add.Op != token.ADD {
+		return nil, false
+	}
+	if loadsField(add.X, typ, idx) {
+		return add.Y, true
+	}
+	if loadsField(add.Y, typ, idx) {
+		return add.X, true
+	}
+	return nil, false
+}
+
+func sameAmount(a, b ssa.Value) bool {
+	if a == b {
+		return true
+	}
+	ka, oka := constIntOf(a)
+	kb, okb := constIntOf(b)
+	return oka && okb && ka == kb
+}
+
+// runRingDeltaAgrees (C13.R5, also C12): the ring invariant cnt == (tail − head) mod len(nodes) survives a
+// step only if the index it moves and the count move by the same amount. Where a store advances tail (or
+// head) by d modulo the ring length and the same block changes cnt by d', d and d' must be the same value
+// (or equal constants). A bulk copy that advances tail by the length of the first run but cnt by the
+// whole batch leaves entries the consumer never sees, or makes it read stale slots. Unrecognised shapes
+// get no verdict.
+func runRingDeltaAgrees(c *Ctx) {
+	w := c.W
+	n := 0
+	for _, typ := range []string{"Queue", "publicationQueue", "queueImpl"} {
+		for _, f := range moduleFuncs(w) {
+			for _, idx := range []string{"tail", "head"} {
+				for _, st := range storesToField(f, false, typ, idx) {
+					d, ok := ringDelta(st.Val, typ, idx)
+					if !ok {
+						continue
+					}
+					// the cnt store of the same block
+					var cntDelta ssa.Value
+					found := 0
+					for _, in := range st.Block().Instrs {
+						cs, ok := in.(*ssa.Store)
+						if !ok {
+							continue
+						}
+						fa, ok := cs.Addr.(*ssa.FieldAddr)
+						if !ok || !fieldAddrIs(fa, typ, "cnt") {
+							continue
+						}
+						b, ok := cs.Val.(*ssa.BinOp)
+						if !ok || (b.Op != token.ADD && b.Op != token.SUB) || !loadsField(b.X, typ, "cnt") {
+							continue
+						}
+						found++
+						cntDelta = b.Y
+					}
+					if found == 0 {
+						// not in the same block: accept the pairing only when the function has exactly one
+						// count update and one update of this index
+						var cntStores []*ssa.Store
+						for _, cs := range storesToField(f, false, typ, "cnt") {
+							if b, ok := cs.Val.(*ssa.BinOp); ok && (b.Op == token.ADD || b.Op == token.SUB) && loadsField(b.X, typ, "cnt") {
+								cntStores = append(cntStores, cs)
+							}
+						}
+						idxStores := 0
+						for _, is := range storesToField(f, false, typ, idx) {
+							if _, ok := ringDelta(is.Val, typ, idx); ok {
+								idxStores++
+							}
+						}
+						if len(cntStores) == 1 && idxStores == 1 {
+							found = 1
+							cntDelta = cntStores[0].Val.(*ssa.BinOp).Y
+						}
+					}
+					if found != 1 {
+						continue
+					}
+					n++
+					c.Check("C13.R5", st, typ+"."+idx+" and "+typ+".cnt move by the same amount", sameAmount(d, cntDelta),
+						"the ring index advances by "+D(d)+" while the count changes by "+D(cntDelta)+": cnt no longer equals the distance between head and tail, so queued items are skipped or stale slots are delivered")
+				}
+			}
+		}
+	}
+	c.Anchor("C13.R5", "ring index updates paired with a count update", n >= 4)
+}
+
+func init() {
+	if round2Docs["C41"] == nil {
+		round2Docs["C41"] = map[string]string{}
+	}
+	round2Docs["C41"]["C41.R5"] = "K4 who-may-write: a survey's registration is added and removed only by the function that runs that survey"
+	round3Hooks["C41"] = append(round3Hooks["C41"], runSurveyRegistryOwner)
+}
+
+// runSurveyRegistryOwner (C41.R5): Survey registers its reply channel, collects one answer per node and
+// unregisters when it returns. Replies are routed through the registry, so an entry removed by anyone
+// else while the survey is still collecting turns the remaining nodes' answers into "unknown id" and the
+// survey runs into its deadline with results missing. Every update and delete of Node.surveyRegistry
+// therefore sits in the function (or a closure of the function) that also registers the channel.
+func runSurveyRegistryOwner(c *Ctx) {
+	w := c.W
+	owners := map[*ssa.Function]bool{}
+	for _, f := range moduleFuncs(w) {
+		if len(mapUpdatesOf(f, false, "Node", "surveyRegistry")) > 0 {
+			for _, g := range WithClosures(f) {
+				owners[g] = true
+			}
+			// a closure that registers: its parent owns too
+			for p := f.Parent(); p != nil; p = p.Parent() {
+				for _, g := range WithClosures(p) {
+					owners[g] = true
+				}
+			}
+		}
+	}
+	if !c.Anchor("C41.R5", "function registering a survey reply channel", len(owners) > 0) {
+		return
+	}
+	n := 0
+	for _, f := range moduleFuncs(w) {
+		for _, del := range mapDeletesOf(f, false, "Node", "surveyRegistry") {
+			n++
+			c.Check("C41.R5", del, "a survey registration is removed only by the function that runs the survey", owners[f],
+				"replies are routed through the registry: removing the entry while the survey still collects makes the remaining nodes' answers unknown ids, and the survey ends at its deadline with results missing")
+		}
+	}
+	c.Anchor("C41.R5", "deletes of Node.surveyRegistry entries", n >= 1)
+}
